@@ -1006,3 +1006,124 @@ Proof.
   - intros W U _. apply push_patches_np0; [exact W|exact U|exact Hda|].
     eapply rebase_push_pre; eassumption.
 Qed.
+
+(* ---------------------------------------------------------------- squash *)
+
+Lemma nis_same : forall t t',
+  (forall n, In n (t_all t') -> In n (t_all t)) -> t_stack t' = t_stack t -> nis t -> nis t'.
+Proof. intros t t' Ha Es H n Hn. unfold stack_has. rewrite Es. apply H. now apply Ha. Qed.
+
+Lemma try_squash_uinv : forall t ps meta msg t1 o,
+  try_squash t ps meta msg = Some (t1, o) -> uinv t -> uinv t1.
+Proof.
+  intros t ps meta msg t1 o H U. apply try_squash_spec in H as (b & bc & tr & _ & _ & -> & _).
+  eapply uinv_same; [| |exact U]; reflexivity.
+Qed.
+
+Lemma try_squash_stack : forall t ps meta msg t1 o,
+  try_squash t ps meta msg = Some (t1, o) -> t_stack t1 = t_stack t.
+Proof. intros t ps meta msg t1 o H. now apply try_squash_fr in H as [H _]. Qed.
+
+Lemma squash_finish_np : forall newn o to_push sp t,
+  wf_txn t -> uinv t -> names_ok (newn :: t_all t) -> is_patch_commit (t_objs t) o ->
+  NoDup to_push -> (forall n, In n to_push -> In n (t_all t) /\ ~ In n (t_applied t)) ->
+  nsat uinv (squash_finish newn o to_push sp t).
+Proof.
+  intros newn o to_push sp t W U Hn Ho Hd Hin. unfold squash_finish.
+  destruct (squash_finish_pre newn o to_push sp t W Hn Ho Hd Hin) as (t3 & -> & W3 & Eu3 & Es3 & Hd3 & Hin3).
+  cbn [tbind]. apply push_patches_np0; [exact W3| |exact Hd3|exact Hin3].
+  eapply uinv_up_some; [exact Eu3|exact Es3|exact U].
+Qed.
+
+Lemma squash_closure_np : forall ps newn meta msg sp t,
+  wf_txn t -> uinv t -> nis t -> squash_pre ps newn t ->
+  nsat uinv (squash_closure ps newn meta msg sp t).
+Proof.
+  intros ps newn meta msg sp t W U Hnis (Hd & Hin & Hv & Hcol). unfold squash_closure.
+  destruct (try_squash t ps meta msg) as [[t1 o]|] eqn:Et.
+  - destruct (try_squash_wf _ _ _ _ _ _ W Et) as (W1 & Ho & Hs1).
+    pose proof (same_lists_all _ _ Hs1) as Ea1.
+    pose proof (try_squash_uinv _ _ _ _ _ _ Et U) as U1.
+    assert (N1 : nis t1).
+    { eapply nis_same; [| |exact Hnis]; [intros n Hn; now rewrite <- Ea1|eapply try_squash_stack; exact Et]. }
+    destruct (delete_patches (fun n => mem n ps) t1) as [t2 to_push] eqn:Ed.
+    destruct (delete_wf _ _ _ _ W1 Ed) as (W2 & Hdp & Hip).
+    pose proof (delete_np _ _ _ _ U1 N1 Ed) as U2.
+    pose proof (delete_objs (fun n => mem n ps) t1) as Eo. rewrite Ed in Eo. cbn [fst] in Eo.
+    apply squash_finish_np; [exact W2|exact U2| |now rewrite Eo|exact Hdp|].
+    + eapply squash_names_ok; [exact W2|exact Hv| |exact Ed]. now rewrite Ea1.
+    + intros n Hn. apply Hip in Hn. split; [apply in_all_cases; auto|].
+      pose proof (names_disjoint t2 (wt_names t2 W2)) as [_ [_ [_ [Hah _]]]].
+      intros Ha. destruct (Hah n Ha) as [Hx _]. contradiction.
+  - pose proof (uinv_pop (fun n => mem n ps) t U) as U1.
+    assert (Es1 : t_stack (fst (pop_patches (fun n => mem n ps) t)) = t_stack t) by apply fr_pop.
+    destruct (pop_patches (fun n => mem n ps) t) as [t1 to_push] eqn:Ep. cbn [fst] in U1, Es1.
+    destruct (pop_wf _ _ _ _ W Ep) as [W1 Hp1].
+    destruct (pop_keep_disjoint _ _ _ _ Ep) as [Hk1 Hinc].
+    pose proof (names_disjoint t (wt_names t W)) as [Hda _].
+    pose proof (pop_inc_nodup _ _ _ _ Hda Ep) as Hdtp.
+    pose proof (names_disjoint t1 (wt_names t1 W1)) as [_ [_ [_ [Hah1 Huh1]]]].
+    assert (Hpush : forall n, In n ps -> In n (t_all t1) /\ ~ In n (t_applied t1)).
+    { intros n Hn. split.
+      - eapply Permutation_in; [apply Permutation_sym; exact Hp1|now apply Hin].
+      - intros Ha. apply Hk1 in Ha. apply mem_In in Hn. cbv beta in Ha. congruence. }
+    eapply nsat_tbind;
+      [apply (push_patches_wf ps false t1 W1 Hd Hpush)|apply (push_patches_np ps false t1 W1 U1 Hd Hpush)|].
+    intros t2 _ [[(W2 & Ea2 & Eh2 & Hp2) U2] Es2]. cbv beta.
+    destruct (try_squash t2 ps meta msg) as [[t3 o]|] eqn:Et2; [|exact I].
+    destruct (try_squash_wf _ _ _ _ _ _ W2 Et2) as (W3 & Ho & Hs3).
+    pose proof (same_lists_all _ _ Hs3) as Ea3. destruct Hs3 as [Eap3 _].
+    pose proof (try_squash_uinv _ _ _ _ _ _ Et2 U2) as U3.
+    assert (Hall2 : forall m, In m (t_all t2) <-> In m (t_all t)).
+    { intros m. split; intros Hm.
+      - eapply Permutation_in; [exact Hp1|]. eapply Permutation_in; [exact Hp2|exact Hm].
+      - eapply Permutation_in; [apply Permutation_sym; exact Hp2|].
+        eapply Permutation_in; [apply Permutation_sym; exact Hp1|exact Hm]. }
+    assert (N3 : nis t3).
+    { eapply nis_same; [| |exact Hnis].
+      - intros n Hn. rewrite Ea3 in Hn. now apply Hall2.
+      - rewrite (try_squash_stack _ _ _ _ _ _ Et2). congruence. }
+    destruct (delete_patches (fun n => mem n ps) t3) as [t4 extra] eqn:Ed.
+    assert (Eex : extra = []).
+    { eapply (delete_top_no_extra ps t3 t4 extra (t_applied t1)); [now rewrite Eap3| |exact Ed].
+      intros x Hx Hps. apply Hk1 in Hx. apply mem_In in Hps. cbv beta in Hx. congruence. }
+    subst extra.
+    destruct (delete_wf _ _ _ _ W3 Ed) as (W4 & _ & _).
+    pose proof (delete_np _ _ _ _ U3 N3 Ed) as U4.
+    pose proof (delete_objs (fun n => mem n ps) t3) as Eo. rewrite Ed in Eo. cbn [fst] in Eo.
+    apply squash_finish_np; [exact W4|exact U4| |now rewrite Eo|exact Hdtp|].
+    + eapply squash_names_ok; [exact W4|exact Hv| |exact Ed].
+      intros m Hm. rewrite Ea3 in Hm. apply Hall2 in Hm. now apply Hcol.
+    + intros n Hn. destruct (Hinc n Hn) as (Hf & Hu1 & Ha0). split.
+      * apply (delete_all_iff _ _ _ _ Ed). split; [|exact Hf]. rewrite Ea3. apply Hall2.
+        apply in_all_cases. now left.
+      * intros Ha4. apply (delete_applied_sub _ _ _ _ Ed) in Ha4. rewrite Eap3, Ea2 in Ha4.
+        apply in_app_or in Ha4 as [Ha4|Ha4].
+        -- destruct (Hah1 n Ha4) as [Hx _]. contradiction.
+        -- apply mem_In in Ha4. cbv beta in Hf. congruence.
+Qed.
+
+Lemma squash_exit_np : forall (p : world * exitc) (b : bool),
+  snd p <> XPanic -> snd (let '(w', x) := p in if b then (w', X3) else (w', x)) <> XPanic.
+Proof. intros [w' x] b H. destruct b; [discriminate|exact H]. Qed.
+
+Lemma run_squash_np : forall w r nm meta msg,
+  Inv w -> stack_ref_has_parent w -> snd (run_squash w r nm meta msg) <> XPanic.
+Proof.
+  intros w r nm meta msg Hi Hs. unfold run_squash.
+  destruct (parse_ranges r) as [prs|] eqn:Epr; [|discriminate].
+  destruct (from_str nm) as [newn|] eqn:En; [|discriminate]. apply from_str_valid in En.
+  np_open.
+  destruct (w_unmerged (op_world op)); [np_leaf|].
+  destruct (negb (head_top_ok op)); [np_leaf|].
+  pose proof (resolve_names_np _ _ (op_state op) RCAll Epr) as Hnp.
+  destruct (resolve_names _ _ _) as [ps| |] eqn:Er; cbn [rres_bind]; [|np_leaf|congruence].
+  destruct (resolve_names_ok _ _ _ _ _ Epr Er) as [Hd Hin].
+  destruct (_ && _) eqn:Eg; [np_leaf|].
+  destruct (Nat.ltb _ _); [np_leaf|].
+  pose proof (on_ok _ _ Eo) as Hop.
+  apply squash_exit_np.
+  apply transact_np; [exact Hop|apply Eo| | |apply frame_squash_closure].
+  - intros W. apply squash_closure_wf; [exact W|]. now apply squash_pre_begin.
+  - intros W U N. apply squash_closure_np; [exact W|exact U|exact N|]. now apply squash_pre_begin.
+Qed.
